@@ -123,8 +123,11 @@ class TermAlg:
     """Uninterpreted-term algebra.  ``kinds`` maps input names to 'b','i','f','c'."""
     symbolic = True
 
-    def __init__(self, kinds=None, aliases=None):
+    def __init__(self, kinds=None, aliases=None, nonneg=()):
         self.kinds = dict(kinds or {})
+        # inputs declared non-negative AND used only as in-range indices (NumPy itself demands 0 <= v < n there):
+        # v % n is v for a direct read of such an input
+        self.nonneg = frozenset(nonneg)
         # input name -> canonical name: two inputs that are the very same memory (same address, shape, strides and
         # dtype) are one uninterpreted array, not two
         self.aliases = dict(aliases or {})
@@ -191,6 +194,9 @@ class TermAlg:
             return self.op("add", args[0], self.op("mul", -1, args[1]))
         if name == "neg":
             return self.op("mul", -1, args[0])
+        if (name == "mod" and self.nonneg and isinstance(args[0], tuple) and args[0] and args[0][0] == "rd"
+                and args[0][1] in self.nonneg and is_plain_const(args[1])):
+            return args[0]
         if not any(is_term(a) for a in args):
             r = self._fold(name, args)
             if r is not NotImplemented:
